@@ -6,8 +6,8 @@
    PARTIAL: the statement "at quiescence every run's final status and object equal those of the failure-free execution"
    is NOT proved as one theorem; what is proved is its three ingredients — nothing is stranded (below), the persisted
    effect of a function is applied on the persisted version only and moves the version by exactly one (exactly-once
-   effect), and a committed status change is the failure-free outcome of the function on the persisted object
-   (C01_effect_is_failure_free). The quiescent-final comparison itself is checked by the correspondence monitor on every
+   effect), and the object a function sees and leaves is the persisted one
+   (C16_fresh_view + C16_object_iff: the function sees, and its write hands over, the persisted object). The quiescent-final comparison itself is checked by the correspondence monitor on every
    generated history (ocaml/monitors_engine.ml, clause C01). *)
 From WF Require Import model.Base model.RunState model.Routing model.Graph model.Shard model.EngineBase model.Engine model.Monitors
   proofs.EngineInv proofs.EngineTokens proofs.EngineProps proofs.MonitorProofs proofs.Delivery proofs.DeliveryProps.
